@@ -11,8 +11,11 @@
      e_purl   net/url.Parse on a realm: None = error, else the URL without its query and the
               query as url.Values (keys ascending, each with its values)
    Time is in microseconds.  encoding/json is inside [e_net]: a token response body is given
-   decoded (or as unreadable / malformed).  http.Client inside doTokenRequest is the identity
-   (no redirects, no cookies: the responses considered are not 3xx).
+   decoded (or as unreadable / malformed).  http.Client inside doTokenRequest: one message, one
+   answer - the answer is what Client.Do returns for the token request (after whatever
+   redirects it followed; [RFail] when Do returns an error).  The hops themselves - which
+   requests the client sends when a token server answers 3xx, and what they carry - are the
+   subject of Model/AuthRedirect.v.
 
    Concurrency.  RoundTrip has three atomic phases per call, separated by the two round trips
    to the registry, which happen outside any lock:
